@@ -24,32 +24,45 @@ import (
 
 // SeqState is the per-watcher oracle state of a sequential execution.
 type SeqState struct {
-	X        *X
-	W        *fsnotify.Watcher
-	WI       int
-	Fd       int
-	M        *Ideal
-	readSeen int   // number of vs.Reads already parsed
-	readPos  int64 // bytes consumed from this watcher's stream
-	logSeen  int   // x.Log index up to which events/errors were compared
-	expErrs  int
-	Problems []Problem
-	Skip     map[string]bool // problem categories not judged by this scenario
-	calls    int
-	inj      bool
+	X         *X
+	W         *fsnotify.Watcher
+	WI        int
+	Fd        int
+	M         *Ideal
+	readSeen  int   // number of vs.Reads already parsed
+	readPos   int64 // bytes consumed from this watcher's stream
+	logSeen   int   // x.Log index up to which events/errors were compared
+	expErrs   int
+	Problems  []Problem
+	Skip      map[string]bool // problem categories not judged by this scenario
+	calls     int
+	inj       bool
+	consuming bool
+	closing   bool
+	Closed    bool
+	Cap       int
 }
 
 func (s *SeqState) vs() *vsys.State { return vsys.Get() }
 
+// streamPos is the number of bytes the kernel has queued on this watcher's
+// descriptor so far: everything already read plus what is still waiting.
 func (s *SeqState) streamPos() int64 {
+	vs := s.vs()
+	var read int64
+	for i, b := range vs.Reads {
+		if s.inj || vs.ReadFd[i] == s.Fd {
+			read += int64(len(b))
+		}
+	}
 	if s.inj {
-		return s.readPos
+		return read
 	}
 	n := vsys.Fionread(s.Fd)
 	if n < 0 {
 		n = 0
 	}
-	return s.readPos + int64(n)
+	return read + int64(n)
 }
 
 func (s *SeqState) problem(cat, sig, detail string) {
@@ -57,12 +70,47 @@ func (s *SeqState) problem(cat, sig, detail string) {
 }
 
 // NewSeqState creates the watcher, its consumer and the model.
-func NewSeqState(x *X, capa int) *SeqState {
+func NewSeqState(x *X, capa int, inject, lateConsumer bool) *SeqState {
 	w, err := x.NewWatcher(capa)
 	mustNil(err)
-	s := &SeqState{X: x, W: w, WI: x.widx(w), Fd: fsnotify.VerifFd(w), M: NewIdeal(), Skip: map[string]bool{}}
-	x.Consume(w, fmt.Sprintf("consumer%d", s.WI), ConsumerMode{Events: true, Errors: true})
+	s := &SeqState{X: x, W: w, WI: x.widx(w), Fd: fsnotify.VerifFd(w), M: NewIdeal(), Skip: map[string]bool{}, inj: inject, Cap: capa}
+	if inject {
+		x.SubstitutePipe(w)
+	}
+	want := capa
+	if capa < 0 {
+		want = fsnotify.VerifDefaultBufferSize()
+	}
+	if cap(w.Events) != want {
+		s.problem("capacity", "Events channel capacity differs from the size requested", fmt.Sprintf("cap=%d requested=%d", cap(w.Events), want))
+	}
+	if !lateConsumer {
+		s.StartConsumer()
+	}
 	return s
+}
+
+// StartConsumer attaches the draining consumer (immediately, or after the
+// history when the scenario checks that a buffered Watcher absorbs events).
+func (s *SeqState) StartConsumer() {
+	if !s.consuming {
+		s.consuming = true
+		s.X.Consume(s.W, fmt.Sprintf("consumer%d", s.WI), ConsumerMode{Events: true, Errors: true})
+	}
+}
+
+// Close closes the watcher; afterwards only the model's final comparison remains.
+func (s *SeqState) Close() {
+	s.X.Close(s.W)
+	// what was read before the close is compared now (whatever was still
+	// undelivered may legitimately be dropped by Close); afterwards the
+	// descriptor number may belong to someone else, so nothing more is
+	// attributed to this Watcher
+	s.X.Quiesce()
+	s.closing = true
+	s.Checkpoint()
+	s.Closed = true
+	s.Fd = -1
 }
 
 func (s *SeqState) Add(p string) error {
@@ -168,6 +216,9 @@ func readMarks(fd int) []kmark {
 
 // Checkpoint must be called at quiescence.
 func (s *SeqState) Checkpoint() {
+	if s.Closed {
+		return
+	}
 	x := s.X
 	vs := s.vs()
 	// 1. the reader must have caught up
@@ -191,6 +242,9 @@ func (s *SeqState) Checkpoint() {
 			e := s.M.Record(r)
 			if e.Kind == "error" {
 				s.expErrs++
+			}
+			if s.closing && e.Kind == "must" {
+				e.Kind = "may"
 			}
 			exp = append(exp, e)
 		}
@@ -217,12 +271,15 @@ func (s *SeqState) Checkpoint() {
 	if !s.Skip["events"] {
 		s.Problems = append(s.Problems, Align(exp, got)...)
 	}
-	if gotErrs != s.expErrs {
+	if gotErrs != s.expErrs && !(s.closing && gotErrs < s.expErrs) {
 		s.problem("overflow", fmt.Sprintf("ErrEventOverflow reported %d times for %d kernel overflow markers", gotErrs, s.expErrs), "")
 	}
 	s.expErrs = 0
 	s.Problems = append(s.Problems, s.M.Problems...)
 	s.M.Problems = nil
+	if s.Closed || s.closing {
+		return
+	}
 	// 4. WatchList
 	l := x.WatchList(s.W)
 	gotL := append([]string{}, l...)
@@ -326,7 +383,7 @@ func fsPicture(root string, fds map[string]int) (string, map[uint64]int) {
 				kind = "d"
 			case syscall.S_IFLNK:
 				t, _ := os.Readlink(p)
-				kind = "l>" + t
+				kind = "l>" + strings.ReplaceAll(t, filepath.Dir(root), "$") // scratch roots differ between worker processes
 			case syscall.S_IFIFO:
 				kind = "p"
 			}
@@ -488,6 +545,68 @@ func (s *SeqState) DoOp(op string) {
 		x.RmAll(arg(1))
 	case "mkfifo":
 		x.Mkfifo(arg(1))
+	case "inj":
+		// inj wd:mask:cookie:name,wd:mask:cookie:name,...  (hex mask; name may be empty)
+		var recs []Rec
+		for _, r := range strings.Split(arg(1), ",") {
+			q := strings.SplitN(r, ":", 4)
+			wd, _ := strconv.Atoi(q[0])
+			mask, _ := strconv.ParseUint(q[1], 16, 32)
+			ck, _ := strconv.Atoi(q[2])
+			recs = append(recs, Rec{Wd: int32(wd), Mask: uint32(mask), Cookie: uint32(ck), Name: q[3]})
+		}
+		x.Inject(s.W, recs...)
+	case "fileburst":
+		// n alternating chmod/write on one file in one harness step: n nameless 16-byte records
+		n, _ := strconv.Atoi(arg(2))
+		vsched.Step("fileburst " + arg(1))
+		for i := 0; i < n; i++ {
+			if i%2 == 0 {
+				mode := uint32(0o600)
+				if i%4 == 0 {
+					mode = 0o644
+				}
+				syscall.Chmod(arg(1), mode)
+			} else {
+				fd, err := syscall.Open(arg(1), syscall.O_WRONLY|syscall.O_APPEND, 0)
+				if err == nil {
+					syscall.Write(fd, []byte("x"))
+					syscall.Close(fd)
+				}
+			}
+		}
+		x.fs("fileburst", arg(1)+" "+arg(2), nil)
+	case "dirburst":
+		// n creations in one step: n named 32-byte records (names of at most 15 bytes)
+		n, _ := strconv.Atoi(arg(2))
+		vsched.Step("dirburst " + arg(1))
+		for i := 0; i < n; i++ {
+			fd, err := syscall.Open(fmt.Sprintf("%s/b%d", arg(1), i), syscall.O_WRONLY|syscall.O_CREAT|syscall.O_EXCL, 0o644)
+			if err == nil {
+				syscall.Close(fd)
+			}
+		}
+		x.fs("dirburst", arg(1)+" "+arg(2), nil)
+	case "abburst":
+		// n alternating chmods on two files of a watched directory: n named records that cannot coalesce
+		n, _ := strconv.Atoi(arg(3))
+		vsched.Step("abburst")
+		for i := 0; i < n; i++ {
+			p := arg(1)
+			if i%2 == 1 {
+				p = arg(2)
+			}
+			mode := uint32(0o600)
+			if (i/2)%2 == 0 {
+				mode = 0o644
+			}
+			syscall.Chmod(p, mode)
+		}
+		x.fs("abburst", arg(1)+" "+arg(2)+" "+arg(3), nil)
+	case "C":
+		s.Close()
+	case "consume":
+		s.StartConsumer()
 	case "nop":
 	default:
 		panic("unknown op " + op)
